@@ -17,7 +17,7 @@ RULE = (
     "distinct = program hash; non-trivial = at least one read under >= 1 override and at least 1 flush."
 )
 ASSUMPTIONS = ["runaway-recursion aborts are outside this property's quantifier (see C08)"]
-UNIT_TIMEOUT = {"quick": 240, "thorough": 2400}
+UNIT_TIMEOUT = {"quick": 150, "thorough": 2400}
 
 COMMON = dict(
     p_shared=0.0,
